@@ -373,6 +373,9 @@ impl Shape {
 }
 
 pub struct SeqStats {
+    /// resume: do not execute anything up to and including the sequence with
+    /// this name (it took the previous worker of this shard down)
+    pub after: Option<String>,
     pub sequences: u64,
     pub skipped_blocking: u64,
     pub model_states: u64,
@@ -452,6 +455,15 @@ fn rec(
                 st.skipped_blocking += 1;
                 return;
             }
+            let mut run_it = run_it;
+            if run_it {
+                if let Some(a) = &st.after {
+                    if *a == p.name {
+                        st.after = None;
+                    }
+                    run_it = false;
+                }
+            }
             if run_it {
                 let r = runner::run_program(st.sequences as usize, &p, cfg, "default");
                 st.sequences += 1;
@@ -515,10 +527,11 @@ fn rec(
     }
 }
 
-pub fn run(check: &str, thorough: bool, shard: (usize, usize)) -> SeqStats {
+pub fn run(check: &str, thorough: bool, shard: (usize, usize), after: Option<String>) -> SeqStats {
     let (suites, _) = suites(check, thorough);
     let cfg = cfg();
     let mut st = SeqStats {
+        after,
         sequences: 0,
         skipped_blocking: 0,
         model_states: 0,
